@@ -107,12 +107,12 @@ def _sub(seq, rows):
     return None if seq is None else [seq[i] for i in rows]
 
 
-def _rate_fn(kind, y, p, w):
+def _rate_fn(kind, y, p, w, pos=1):
     if kind == "selection_rate":
-        return lambda rows: R.selection_rate(_sub(p, rows), 1, _sub(w, rows))
+        return lambda rows: R.selection_rate(_sub(p, rows), pos, _sub(w, rows))
     short = {"true_positive_rate": "tpr", "false_positive_rate": "fpr", "true_negative_rate": "tnr",
              "false_negative_rate": "fnr"}[kind]
-    return lambda rows: R.rates(_sub(y, rows), _sub(p, rows), 1, _sub(w, rows))[short]
+    return lambda rows: R.rates(_sub(y, rows), _sub(p, rows), pos, _sub(w, rows))[short]
 
 
 def _sig(cls, y, p, g, w):
@@ -128,7 +128,7 @@ def _wrap(rng, y, p, g, w):
             None if w is None else gen.as_vec(w, gen.pick(rng, ["list", "ndarray", "series"]), rng))
 
 
-def check_named(ctx, M, y, p, g, w, cy, cp, cg, cw, only=None):
+def check_named(ctx, M, y, p, g, w, cy, cp, cg, cw, only=None, sfx=""):
     kw = {} if cw is None else {"sample_weight": cw}
     srv, sro = _group_metric(_rate_fn("selection_rate", y, p, w), y, p, g, w)
     tpv, tpo = _group_metric(_rate_fn("true_positive_rate", y, p, w), y, p, g, w)
@@ -157,7 +157,7 @@ def check_named(ctx, M, y, p, g, w, cy, cp, cg, cw, only=None):
                 continue
             got = getattr(M, name)(cy, cp, sensitive_features=cg, method=method, **extra, **kw)
             ctx.ev("named_values_compared")
-            ctx.check(np.ndim(got) == 0 and _accept(got, cands), "named_metric_mismatch:%s" % name, method=method, **extra,
+            ctx.check(np.ndim(got) == 0 and _accept(got, cands), "named_metric_mismatch:%s%s" % (name, sfx), method=method, **extra,
                       y_true=y, y_pred=p, groups=g, weights=w, got=repr(got), expected=cands)
 
 
@@ -182,17 +182,20 @@ def check_default_method(ctx, M, y, p, g, w, cy, cp, cg, cw):
 GEN_RATES = ["true_positive_rate", "true_negative_rate", "false_positive_rate", "false_negative_rate", "selection_rate"]
 
 
-def check_genrates(ctx, M, y, p, g, w, cy, cp, cg, cw):
+def check_genrates(ctx, M, y, p, g, w, cy, cp, cg, cw, forwarded=(None,)):
+    """forwarded: values of the base metric's own `pos_label` argument passed through the generated function (None = not passed)."""
     kw = {} if cw is None else {"sample_weight": cw}
     for base in GEN_RATES:
-        vals, overall = _group_metric(_rate_fn(base, y, p, w), y, p, g, w)
-        for tr in ("difference", "ratio"):
-            for method in METHODS:
-                got = getattr(M, "%s_%s" % (base, tr))(cy, cp, sensitive_features=cg, method=method, **kw)
-                cands = _transform(vals, overall, tr, method)
-                ctx.ev("generated_values_compared")
-                ctx.check(np.ndim(got) == 0 and _accept(got, cands), "generated_rate_metric_mismatch:%s_%s" % (base, tr),
-                          method=method, y_true=y, y_pred=p, groups=g, weights=w, got=repr(got), expected=cands)
+        for pl in forwarded:
+            vals, overall = _group_metric(_rate_fn(base, y, p, w, 1 if pl is None else pl), y, p, g, w)
+            fkw = {} if pl is None else {"pos_label": pl}
+            for tr in ("difference", "ratio"):
+                for method in METHODS:
+                    got = getattr(M, "%s_%s" % (base, tr))(cy, cp, sensitive_features=cg, method=method, **kw, **fkw)
+                    cands = _transform(vals, overall, tr, method)
+                    ctx.ev("generated_values_compared")
+                    ctx.check(np.ndim(got) == 0 and _accept(got, cands), "generated_rate_metric_mismatch:%s_%s" % (base, tr),
+                              method=method, forwarded=fkw, y_true=y, y_pred=p, groups=g, weights=w, got=repr(got), expected=cands)
 
 
 def _rand_dataset(rng, both_classes=False):
@@ -251,8 +254,25 @@ def run_case(cls, key, seed, ctx):
         ctx.mark(_sig(cls, y, p, g, w), len(set(g)) >= 2, sample={"y_true": y, "y_pred": p, "groups": g, "weights": w})
         check_named(ctx, M, y, p, g, w, cy, cp, cg, cw)
         if rng.random() < 0.4:
-            check_genrates(ctx, M, y, p, g, w, cy, cp, cg, cw)
+            check_genrates(ctx, M, y, p, g, w, cy, cp, cg, cw, forwarded=(None, 0, 1))
         check_default_method(ctx, M, y, p, g, w, cy, cp, cg, cw)
+        if rng.random() < 0.4:
+            # evaluation loops refill the same buffers: the SAME array objects, new contents, must give the new data's values
+            ay, ap = np.array(y), np.array(p)
+            aw = None if w is None else np.array(w, dtype=float)
+            check_named(ctx, M, y, p, g, w, ay, ap, cg, aw, sfx=":first_call_on_reused_buffers")
+            p2 = rng.integers(0, 2, size=len(p))
+            ap[:] = p2
+            y2 = list(y)
+            if rng.random() < 0.5:
+                ay[:] = rng.integers(0, 2, size=len(y))
+                y2 = ay.tolist()
+            w2 = w
+            if aw is not None and rng.random() < 0.5:
+                aw[:] = gen.positive_weights(rng, len(y), "real")
+                w2 = aw.tolist()
+            ctx.ev("refilled_buffer_rounds")
+            check_named(ctx, M, y2, p2.tolist(), g, w2, ay, ap, cg, aw, sfx=":same_array_objects_refilled_in_place")
         return
     if cls == "rand_generated":
         return _run_generated(ctx, M, rng)
@@ -288,13 +308,15 @@ def _run_generated(ctx, M, rng):
     rows = R.group_rows(g)
     for base, transforms in specs:
         f = getattr(skm, base)
+        # arguments of the base metric itself forwarded through the generated function, falsy values included
+        extra = gen.pick(rng, _FORWARDED.get(base, [{}]))
 
-        def on(rws, f=f):
+        def on(rws, f=f, extra=extra):
             a = np.asarray(_sub(yy, rws))
             b = np.asarray(_sub(pp, rws))
             if w is None:
-                return f(a, b)
-            return f(a, b, sample_weight=np.asarray(_sub(w, rws)))
+                return f(a, b, **extra)
+            return f(a, b, sample_weight=np.asarray(_sub(w, rws)), **extra)
         try:
             vals = [float(on(r)) for r in rows.values()]
             overall = float(on(list(range(n))))
@@ -306,14 +328,19 @@ def _run_generated(ctx, M, rng):
             for method in methods:
                 mk = {} if method is None else {"method": method}
                 got = getattr(M, "%s_%s" % (base, tr))(gen.as_vec(yy, gen.pick(rng, ["list", "ndarray"]), rng), np.asarray(pp),
-                                                       sensitive_features=g, **mk, **kw)
+                                                       sensitive_features=g, **mk, **kw, **extra)
                 if any(isnan(v) for v in vals):
                     ctx.ev("generated_skipped_nan_cell")
                     continue
                 cands = _transform(vals, overall, tr, method)
                 ctx.ev("generated_values_compared")
                 ctx.check(np.ndim(got) == 0 and _accept(got, cands, 1e-10), "generated_sklearn_metric_mismatch:%s_%s" % (base, tr),
-                          method=method, y_true=yy, y_pred=pp, groups=g, weights=w, got=repr(got), expected=cands)
+                          method=method, forwarded=extra, y_true=yy, y_pred=pp, groups=g, weights=w, got=repr(got), expected=cands)
+
+
+_FORWARDED = {"accuracy_score": [{}, {"normalize": False}, {"normalize": True}], "zero_one_loss": [{}, {"normalize": False}],
+              "precision_score": [{}, {"pos_label": 0}, {"zero_division": 0}], "recall_score": [{}, {"pos_label": 0}, {"zero_division": 0}],
+              "f1_score": [{}, {"pos_label": 0}], "mean_squared_error": [{}], "log_loss": [{}, {"normalize": False}]}
 
 
 def wpow_err(y_true, y_pred, sample_weight=None, scale=None, beta=1.0):
